@@ -448,6 +448,7 @@ pub fn c05(sc: &Scenario, rr: &RunResult) -> Vec<Violation> {
     let completed = rr.outcome.verdict == Verdict::Completed && !rr.rec.hosts.iter().any(|h| h.panicked.is_some());
     let reference = Interp::run(sc);
     out.extend(probe_expectations("C05", sc, rr, &reference));
+    out.extend(flush_after_all_data(sc, rr));
     // count windows are the stateful operators whose per-iteration behaviour is fully determined
     // by the arrival history: all results before the FlushAndRestart, nothing carried over
     for v in crate::oracle2::c12(sc, rr) {
@@ -1096,6 +1097,112 @@ pub fn c03(sc: &Scenario, rr: &RunResult) -> Vec<Violation> {
         if !ctrl.iter().any(|c| c.0 == K_FAR) || ctrl.last().map(|c| c.0) != Some(K_TERM) {
             out.push(viol("C03", "control/missing-marker", format!("link {:?} -> {:?}: control elements sent were {:?}", from, to, ctrl.iter().map(|c| kind_name(c.0)).collect::<Vec<_>>())));
             return out;
+        }
+    }
+    out
+}
+
+
+/// A block input forwards FlushAndRestart #i only after all the data its upstream replicas sent
+/// for iteration i: at the probe right after `Start`, the number of data elements seen before the
+/// i-th marker equals what the incoming data links carried in their i-th iteration (a cached side
+/// input, which is sent once, counts in every iteration).
+pub fn flush_after_all_data(sc: &Scenario, rr: &RunResult) -> Vec<Violation> {
+    let mut out = vec![];
+    if rr.outcome.verdict != Verdict::Completed || rr.rec.hosts.iter().any(|h| h.panicked.is_some()) {
+        return out;
+    }
+    let _ = sc;
+    for m in rr.meta.iter().filter(|m| m.pos == "start") {
+        // zip emits pairs, not elements
+        let is_zip = rr.meta.iter().any(|x| x.path == m.path && x.pos == "preL") && {
+            fn step_at<'a>(steps: &'a [Step], path: &[usize]) -> Option<&'a Step> {
+                let (first, rest) = path.split_first()?;
+                let idx = if *first >= 10_000 { return None } else { *first };
+                let st = steps.get(idx)?;
+                if rest.is_empty() {
+                    return Some(st);
+                }
+                match st {
+                    Step::Loop(_, l) => {
+                        let (b, rest2) = rest.split_first()?;
+                        let bst = l.body.get(b.checked_sub(10_000)?)?;
+                        // body steps are addressed as [.., 10000+bi, 0, ...]
+                        let rest3 = rest2.split_first().map(|x| x.1).unwrap_or(&[]);
+                        if rest3.is_empty() {
+                            Some(bst)
+                        } else {
+                            step_at(std::slice::from_ref(bst), &[&[0usize][..], rest3].concat())
+                        }
+                    }
+                    _ => None,
+                }
+            }
+            matches!(step_at(&sc.steps, &m.path), Some(Step::Bin(_, _, BinOp::Zip)) | None)
+        };
+        if is_zip {
+            continue;
+        }
+        let prev = crate::oracle2::upstream_blocks(rr, &m.path);
+        for ((pid, c), hist) in &rr.rec.probes {
+            if *pid != m.id {
+                continue;
+            }
+            // data per iteration at the probe
+            let mut got: Vec<usize> = vec![0];
+            for r in hist {
+                match r.kind {
+                    K_ITEM | K_TS => *got.last_mut().unwrap() += 1,
+                    K_FAR => got.push(0),
+                    _ => {}
+                }
+            }
+            let n_iter = got.len() - 1;
+            if n_iter == 0 {
+                continue;
+            }
+            let mut want = vec![0usize; n_iter];
+            let mut usable = true;
+            for (k, l) in rr.rec.links.iter().filter(|(k, _)| k.to == *c && prev.contains(&k.prev_block)) {
+                let mut per: Vec<usize> = vec![0];
+                for e in &l.sent {
+                    match e.kind {
+                        K_ITEM | K_TS => *per.last_mut().unwrap() += 1,
+                        K_FAR => per.push(0),
+                        _ => {}
+                    }
+                }
+                let li = per.len() - 1;
+                if li == n_iter {
+                    for i in 0..n_iter {
+                        want[i] += per[i];
+                    }
+                } else if li == 1 {
+                    // sent once, presented in every iteration (cached side input)
+                    for w in want.iter_mut() {
+                        *w += per[0];
+                    }
+                } else {
+                    let _ = k;
+                    usable = false;
+                }
+            }
+            if !usable {
+                continue;
+            }
+            for i in 0..n_iter {
+                if got[i] != want[i] {
+                    out.push(viol(
+                        "C05",
+                        "flush-before-all-data",
+                        format!(
+                            "probe {} (after Start, step {:?}) at {:?}: FlushAndRestart #{} was forwarded after {} data elements, but the upstream replicas sent {} for that iteration",
+                            m.id, m.path, c, i, got[i], want[i]
+                        ),
+                    ));
+                    return out;
+                }
+            }
         }
     }
     out
